@@ -228,15 +228,18 @@ Definition get_sof (sawsof : bool) (is_prog is_lossless is_arith : Z) : routine 
   ret (set_saw_SOF true, 0%nat).
 
 (* ------------------------------------------------------------- get_sos *)
-(* search of the component: for (ci = 0; ci < num_components && ci < 4; ci++)
-     if (cc == comp_info[ci].component_id && !cur_comp_info[ci]) goto id_found;
-   `cur` mirrors cinfo->cur_comp_info[] as rewritten by THIS invocation *)
-Fixpoint find_comp (cc : Z) (ids : list Z) (cur : list Z) (ci : nat) (fuel : nat) : option nat :=
+(* search of the component (current source):
+     for (ci = 0; ci < num_components; ci++)
+       if (cc == comp_info[ci].component_id) {
+         for (pi = 0; pi < i; pi++) if (cur_comp_info[pi] == compptr) break;
+         if (pi == i) goto id_found; }
+   `cur` mirrors cinfo->cur_comp_info[] as rewritten by THIS invocation (0 = NULL, ci+1) *)
+Fixpoint find_comp (cc : Z) (ids : list Z) (cur : list Z) (i : nat) (ci : nat) (fuel : nat) : option nat :=
   match fuel with
   | O => None
   | S f =>
-    if (cc =? nth ci ids 0) && (nth ci cur 0 =? 0) then Some ci
-    else find_comp cc ids cur (S ci) f
+    if (cc =? nth ci ids 0) && negb (existsb (fun x => x =? Z.of_nat ci + 1) (firstn i cur)) then Some ci
+    else find_comp cc ids cur i (S ci) f
   end.
 
 Definition get_sos (sawsof : bool) (ncomp : Z) (ids : list Z) : routine :=
@@ -249,7 +252,7 @@ Definition get_sos (sawsof : bool) (ncomp : Z) (ids : list Z) : routine :=
   rep (Z.to_nat n) (fun i cur =>
       cc <- input_byte ;;
       c <- input_byte ;;
-      match find_comp cc ids cur 0 (Z.to_nat (Z.min ncomp 4)) with
+      match find_comp cc ids cur i 0 (Z.to_nat ncomp) with
       | None => pfail E_BAD_COMPONENT_ID
       | Some ci =>
           emit (WCell G_CUR i (Z.of_nat ci + 1)) ;;;
